@@ -180,3 +180,116 @@ func VerifC05Reload(h *verifrt.H) {
 	h.ClearKnown()
 	h.Cover("end")
 }
+
+// VerifC05Resave: a record is stored (ConvertToByte, as a write-interval tick does while the
+// swamp stays open), then changed in place - a new value of the same type, or values pushed to a
+// uint32 slice -, stored again, and only the second image is loaded into a fresh record. Storing
+// must not change the live record (type and value read back the same right after the first
+// store), and the reloaded record equals the live record at the second store. Zero-like first
+// and second values are included (0, "", false, empty bytes, empty slice).
+func VerifC05Resave(h *verifrt.H) {
+	t := New(nil).(*treasure)
+	g := t.StartTreasureGuard(true, guard.BodyAuthID)
+	t.BodySetKey(g, "k")
+	kind := h.Choose("contentKind", 5)
+	var i1, i2 int64
+	var s1, s2 string
+	var b1, b2 bool
+	var y1, y2 []byte
+	var first, second []uint32
+	switch kind {
+	case 0:
+		i1, i2 = h.Int64("first"), h.Int64("second")
+		t.SetContentInt64(g, i1)
+	case 1:
+		s1, s2 = h.String("first", h.Len("firstLen", 0, 1)), h.String("second", h.Len("secondLen", 0, 1))
+		t.SetContentString(g, s1)
+	case 2:
+		b1, b2 = h.Bool("first"), h.Bool("second")
+		t.SetContentBool(g, b1)
+	case 3:
+		y1, y2 = h.Bytes("first", h.Len("firstLen", 0, 1)), h.Bytes("second", h.Len("secondLen", 0, 1))
+		t.SetContentByteArray(g, y1)
+	case 4:
+		first = make([]uint32, h.Len("firstLen", 0, 1))
+		for i := range first {
+			first[i] = h.Uint32("elem")
+		}
+		second = make([]uint32, h.Len("secondLen", 0, 2))
+		for i := range second {
+			second[i] = h.Uint32("elem")
+		}
+		h.Assert(t.Uint32SlicePush(first) == nil, "push-ok")
+	}
+	ct := t.GetContentType()
+	_, err := t.ConvertToByte(g)
+	h.Assert(err == nil, "encode-ok")
+	h.Assert(t.GetContentType() == ct, "storing-does-not-change-the-live-record")
+	switch kind {
+	case 0:
+		v, e := t.GetContentInt64()
+		h.Assert(e == nil && v == i1, "storing-does-not-change-the-live-record")
+		t.SetContentInt64(g, i2)
+	case 1:
+		v, e := t.GetContentString()
+		h.Assert(e == nil && v == s1, "storing-does-not-change-the-live-record")
+		t.SetContentString(g, s2)
+	case 2:
+		v, e := t.GetContentBool()
+		h.Assert(e == nil && v == b1, "storing-does-not-change-the-live-record")
+		t.SetContentBool(g, b2)
+	case 3:
+		v, e := t.GetContentByteArray()
+		h.Assert(e == nil && c05beq(v, y1), "storing-does-not-change-the-live-record")
+		t.SetContentByteArray(g, y2)
+	case 4:
+		n, e := t.Uint32SliceSize()
+		h.Assert(e == nil && n == len(first), "storing-does-not-change-the-live-record")
+		h.Assert(t.Uint32SlicePush(second) == nil, "push-ok")
+	}
+	ct2 := t.GetContentType()
+	blob, err := t.ConvertToByte(g)
+	h.Assert(err == nil, "encode-ok")
+	t.ReleaseTreasureGuard(g)
+
+	r := New(nil).(*treasure)
+	rg := r.StartTreasureGuard(true, guard.BodyAuthID)
+	h.Assert(r.LoadFromByte(rg, blob, "f.hyd") == nil, "decode-ok")
+	r.ReleaseTreasureGuard(rg)
+	h.Assert(r.GetContentType() == ct2, "reload-content-type-after-second-store")
+	switch kind {
+	case 0:
+		v, e := r.GetContentInt64()
+		h.Assert(e == nil && v == i2, "reload-value-of-the-second-store")
+	case 1:
+		v, e := r.GetContentString()
+		h.Assert(e == nil && v == s2, "reload-value-of-the-second-store")
+	case 2:
+		v, e := r.GetContentBool()
+		h.Assert(e == nil && v == b2, "reload-value-of-the-second-store")
+	case 3:
+		v, e := r.GetContentByteArray()
+		h.Assert(e == nil && c05beq(v, y2), "reload-value-of-the-second-store")
+	case 4:
+		live, e0 := t.Uint32SliceGetAll()
+		got, e1 := r.Uint32SliceGetAll()
+		h.Assert(e0 == nil && e1 == nil && len(live) == len(got), "reload-value-of-the-second-store")
+		if len(live) == len(got) {
+			for i := range live {
+				h.Assert(live[i] == got[i], "reload-value-of-the-second-store")
+			}
+		}
+		// every pushed value is in the reloaded slice
+		for _, w := range append(append([]uint32{}, first...), second...) {
+			found := false
+			for _, x := range got {
+				if x == w {
+					found = true
+				}
+			}
+			h.Assert(found, "reload-value-of-the-second-store")
+		}
+	}
+	h.ClearKnown()
+	h.Cover("end")
+}
